@@ -585,6 +585,11 @@ func run(ci any, r *mon.Rec) {
 				addr := uint16((g*c.M + k) * 131 % 60000)
 				qty := uint16(1 + (g*c.M+k)%100)
 				q := specref.Req{FC: fc, Unit: uint8(1 + g%200), TID: uint16(g*1000 + k + 1), Addr: addr, Qty: qty}
+				if c.Mode == "plain" && g == 0 && k%3 == 2 {
+					// a write addressed to unit 0 (the device on this line answers it like any other): its reply belongs to
+					// this caller and to nobody after it
+					q = specref.Req{FC: 6, Unit: 0, TID: q.TID, Addr: addr, Value: uint16(40000 + k)}
+				}
 				req, err := libx.NewRequest(fr, q)
 				if err != nil {
 					addViol("constructor-refuses-legal", err.Error())
@@ -599,7 +604,7 @@ func run(ci any, r *mon.Rec) {
 					ow.cancelled.Store(false)
 				}
 				omu.Lock()
-				owners[uint32(q.Addr)<<16|uint32(q.Qty)] = ow
+				owners[uint32(q.Addr)<<16|uint32(q.Qty)|uint32(q.Value)] = ow
 				omu.Unlock()
 				ctx, cancel := context.WithCancel(context.Background())
 				if ow.noReply {
@@ -629,6 +634,10 @@ func run(ci any, r *mon.Rec) {
 					continue
 				}
 				okCalls.Add(1)
+				if libx.IsNilValue(resp) {
+					addViol("call-returns-nothing", fmt.Sprintf("caller %d.%d: request %+v returned neither a response nor an error", g, k, short(q)))
+					continue
+				}
 				cc := call{ow: ow, q: q, resp: resp, want: dev.Handle(q).Encode(fr)}
 				verify([]call{cc}, "at return")
 				held = append(held, cc)
